@@ -206,13 +206,20 @@ func verifC05_sched() {
 	t.endMode = vEndBlock
 	c := vNewConn(t, client, nil, 16, 16)
 	a := vBytes("a", 2)
-	b1, b2 := vBytes("b", 1), vBytes("b", 1)
+	// b1len=5 makes the header of the streaming writer's second frame straddle the 16-byte write buffer at a client: the
+	// frame is then written to the transport in two pieces, with a scheduling point in the middle of it
+	b1, b2 := vBytes("b", vParam("b1len", 1)), vBytes("b", 1)
 	withPing := vParam("ping", 0) == 1
+	both := vParam("writers", 2) == 2
 	done := make(chan error, 3)
 	vGhostExplore(vParam("preempt", 2))
-	go func() {
-		done <- c.Write(vBG, MessageBinary, a)
-	}()
+	if both {
+		go func() {
+			done <- c.Write(vBG, MessageBinary, a)
+		}()
+	} else {
+		done <- nil
+	}
 	go func() {
 		w, err := c.Writer(vBG, MessageText)
 		if err == nil {
@@ -248,7 +255,8 @@ func verifC05_sched() {
 	}
 	vAssert(ok, "C05.sched.writers-succeed")
 	frames, wf := vParseWritten(t.out)
-	vAssert(wf, "C05.sched.wellformed")
+	// (a connection closed under a writer -- the cancelled ping does that -- may leave a cut frame at the very end)
+	vAssert(vOr(wf, withPing && !vIsOpen(c)), "C05.sched.wellformed")
 	var msgs [][]byte
 	var types []uint8
 	var cur []byte
@@ -278,7 +286,7 @@ func verifC05_sched() {
 	if !withPing {
 		vAssert(vAnd(len(msgs) == 2, !inMsg), "C05.sched.message-count")
 	}
-	bb := []byte{b1[0], b2[0]}
+	bb := append(append([]byte{}, b1...), b2...)
 	for i, m := range msgs {
 		if types[i] == 2 {
 			vAssert(vEqBytes(m, a), "C05.sched.message-equals-written")
@@ -288,4 +296,212 @@ func verifC05_sched() {
 	}
 	c.CloseNow()
 	vObserve("sched", len(msgs))
+}
+
+// vWireSequenceOK checks that the data frames on the wire form whole messages one after the other (control frames may
+// sit between fragments): no message starts inside another, no continuation without a start.
+func vWireSequenceOK(frames []vFrame, client bool) (good bool, inMsg bool, nMsgs int) {
+	good = true
+	for _, f := range frames {
+		good = vAnd(good, f.masked == client)
+		switch {
+		case f.opcode >= 8:
+			good = vAnd(good, f.fin)
+			continue
+		case f.opcode == 0:
+			good = vAnd(good, inMsg)
+		default:
+			good = vAnd(good, vNot(inMsg))
+			inMsg = true
+		}
+		if f.fin {
+			inMsg = false
+			nMsgs++
+		}
+	}
+	return
+}
+
+// C05.abandoned: a streaming writer whose context ends before its Close went through leaves its message unfinished on
+// the wire. As long as the connection stays open nobody else may start a message (it would land inside the unfinished
+// one): a second writer must fail or wait, and whatever reached the wire is still a sequence of whole messages followed
+// by at most one unfinished one. Every choice Go's select may make at the lock acquisitions is explored.
+func verifC05_abandoned() {
+	client := vParam("client", 1) == 1
+	vInstallRand()
+	t := vNewTransport(nil)
+	t.endMode = vEndBlock
+	c := vNewConn(t, client, vCopts(vParam("deflate", 0)), 16, 32)
+	a := vBytes("a", 2)
+	b := vBytes("b", 2)
+	ctx1, cancel1 := context.WithCancel(vBG)
+	w, err := c.Writer(ctx1, MessageText)
+	vAssert(err == nil, "C05.abandoned.setup")
+	_, err = w.Write(a)
+	vAssert(err == nil, "C05.abandoned.setup")
+	when := vChoose("cancel", 3)
+	if when == 1 {
+		cancel1()
+	}
+	var cerr error
+	if when != 2 {
+		cerr = w.Close()
+	} // when == 2: the application simply never closes its writer
+	ctx2, cancel2 := context.WithTimeout(vBG, time.Second)
+	err2 := c.Write(ctx2, MessageBinary, b)
+	cancel2()
+	cancel1()
+	vReach("C05.abandoned.second-write-returned")
+	frames, wf := vParseWritten(t.out)
+	vAssert(wf, "C05.abandoned.wellformed")
+	good, inMsg, n := vWireSequenceOK(frames, client)
+	vAssert(good, "C05.abandoned.no-message-inside-another")
+	if when == 0 {
+		vAssert(vAnd(cerr == nil, err2 == nil), "C05.abandoned.closed-writer-lets-the-next-in")
+		vAssert(vAnd(n == 2, !inMsg), "C05.abandoned.both-messages-whole")
+	}
+	if (when == 1 && cerr != nil) || when == 2 {
+		vReach("C05.abandoned.first-message-unfinished")
+		vAssert(err2 != nil, "C05.abandoned.second-writer-must-not-start")
+	}
+	c.CloseNow()
+	vObserve("abandoned", when, cerr == nil, err2 == nil)
+}
+
+// C05.midframe: a streaming writer is held up inside a transport write at every point of its message (its frames are
+// written in several pieces because the write buffer is small), and while it is stuck another goroutine tries to ping,
+// to write, or to start a message with a context that ends; then the writer goes on. The peer must receive exactly the
+// writer's message: whatever the other call does while it queues for the frame lock must not leak into the frame in
+// progress (the scratch header, the masking key and the write buffer are shared by all writers).
+func verifC05_midframe() {
+	client := vParam("client", 1) == 1
+	vInstallRand()
+	t := vNewTransport(nil)
+	t.endMode = vEndBlock
+	c := vNewConn(t, client, nil, 16, 16)
+	b1, b2 := vBytes("b", 5), vBytes("b", 12)
+	t.holdAt = 1 + vChoose("holdAt", 3)
+	done := make(chan error, 1)
+	go func() {
+		w, err := c.Writer(vBG, MessageText)
+		if err == nil {
+			_, err = w.Write(b1)
+		}
+		if err == nil {
+			_, err = w.Write(b2)
+		}
+		if err == nil {
+			err = w.Close()
+		}
+		done <- err
+	}()
+	vGhostSettle() // the writer is stuck in the transport, in the middle of a frame, holding the frame lock
+	ctx, cancel := context.WithCancel(vBG)
+	cancel()
+	other := vChoose("other", 3)
+	var oerr error
+	switch other {
+	case 0:
+		oerr = c.Ping(ctx)
+	case 1:
+		oerr = c.Write(ctx, MessageBinary, vBytes("o", 1))
+	case 2:
+		ctx2, cancel2 := context.WithTimeout(vBG, time.Second)
+		oerr = c.Ping(ctx2)
+		cancel2()
+	}
+	close(t.release)
+	werr := <-done
+	vReach("C05.midframe.done")
+	frames, wf := vParseWritten(t.out)
+	if vIsOpen(c) {
+		vReach("C05.midframe.still-open")
+		vAssert(werr == nil, "C05.midframe.writer-succeeds")
+		vAssert(wf, "C05.midframe.wellformed")
+	}
+	want := append(append([]byte{}, b1...), b2...)
+	var got []byte
+	good := true
+	finSeen := false
+	for _, f := range frames {
+		if f.opcode >= 8 {
+			continue
+		}
+		good = vAnd(good, vAnd(f.masked == client, vNot(finSeen)))
+		good = vAnd(good, vNot(vOr(f.rsv1, vOr(f.rsv2, f.rsv3))))
+		got = append(got, f.payload...)
+		if f.fin {
+			finSeen = true
+		}
+	}
+	vAssert(good, "C05.midframe.frames")
+	vAssert(vIsPrefix(got, want), "C05.midframe.payload-is-the-writers")
+	if werr == nil {
+		vAssert(vAnd(finSeen, vEqBytes(got, want)), "C05.midframe.whole-message")
+	}
+	_ = oerr
+	c.CloseNow()
+	vObserve("midframe", t.holdAt, other, werr == nil)
+}
+
+// C05.pair: what one library endpoint emits when it pings, writes a message and closes (in a fixed order here; the
+// interleavings are C05.sched's subject) is handed to a library endpoint of the other role by a transport that splits it
+// into pieces of a chosen size. The receiving side must get exactly the message written, answer the Ping with the same
+// payload, and see the close status and reason that were sent, wherever the pieces end.
+func verifC05_pair() {
+	client := vParam("client", 1) == 1 // role of the sender
+	vInstallRand()
+	// the peer's only contribution: the Pong for the sender's ping, delivered once the ping is on the wire
+	pong := vFrame{fin: true, opcode: 10, masked: !client, payload: []byte("10")}
+	if pong.masked {
+		copy(pong.key[:], vBytes("key", 4))
+	}
+	ta := vNewTransport(vEncodeFrame(pong))
+	ta.endMode = vEndBlock
+	ta.vGate(0, 1)
+	a := vNewConn(ta, client, nil, 16, 64)
+	data := vBytes("data", 3)
+	a.pingCounter = 9 // the next ping carries the two-byte payload "10"
+	a.CloseRead(vBG)
+	vAssert(a.Ping(vBG) == nil, "C05.pair.setup")
+	w, err := a.Writer(vBG, MessageText)
+	vAssert(err == nil, "C05.pair.setup")
+	w.Write(data[:1])
+	w.Write(data[1:])
+	vAssert(w.Close() == nil, "C05.pair.setup")
+	reason := vBytes("reason", 3)
+	go a.Close(StatusGoingAway, string(reason))
+	vGhostSettle() // the Close frame is out; Close now waits for an answer that will not come
+	wire := append([]byte{}, ta.out...)
+	sent, ok := vParseWritten(wire)
+	vAssert(ok, "C05.pair.sender-wellformed")
+	var pings [][]byte
+	for _, f := range sent {
+		if f.opcode == 9 {
+			pings = append(pings, f.payload)
+		}
+	}
+	// the receiving library endpoint
+	tb := vNewTransport(wire)
+	tb.step = 1 + vChoose("step", vParam("steps", 3))
+	tb.first = vChoose("first", 3)
+	tb.endMode = vEndBlock
+	b := vNewConn(tb, !client, nil, 16, 256)
+	g := vReadLoop(b, 2, 2)
+	vReach("C05.pair.received")
+	okm := len(g.msgs) == 1
+	if okm {
+		okm = vAnd(g.types[0] == MessageText, vEqBytes(g.msgs[0], data))
+	}
+	vAssert(okm, "C05.pair.message-equals-written")
+	var ce CloseError
+	if errors.As(g.err, &ce) {
+		vAssert(vAnd(ce.Code == StatusGoingAway, vEqStr(ce.Reason, string(reason))), "C05.pair.close-status-and-reason")
+	} else {
+		vAssert(false, "C05.pair.close-received")
+	}
+	vCheckControlReplies(tb, vExpect{pongs: pings, closeRecv: true, closeCode: int(StatusGoingAway), closeReason: reason}, !client, "C05.pair")
+	a.CloseNow()
+	b.CloseNow()
+	vObserve("pair", len(g.msgs), vWireSummary(tb.out))
 }
